@@ -111,7 +111,7 @@ def run_batch(chk, batch, judge_now):
         per = dict(per, **{"go+acronyms": per_acr["go"]})
         for lang in common.LANGS + ["go+acronyms"]:
             r = per[lang]
-            if r["status"] in ("panic", "abort"):
+            if r["status"] in ("panic", "abort", "hang"):
                 continue
             if r["status"] == "unreadable":
                 chk.extra.setdefault("unreadable_outputs", {}).setdefault(lang, 0)
